@@ -39,11 +39,11 @@ theorem action_assoc_in_range {n : Int} (hn : 0 < n) (is : List Instr) (dl : Boo
 /-- **C05 (slot ranges, whole pipeline).** For every font – any passes, rules, constraint and action programs – and every
 non-empty text of `n` characters: each slot record of a segment the modelled pipeline returns has `before`, `after` and
 `original` in `[0, n)`. -/
-theorem pipeline_assoc_in_range (font : Pass.Font) (text : List Nat) (fuel : Nat) (hn : 0 < text.length) {c : Ctx} {ci : List Assoc.CI}
-    (e : Pass.shape font text fuel = .ok (some (c, ci))) :
+theorem pipeline_assoc_in_range (font : Pass.Font) (text : List Nat) (fuel : Nat) (dir : Nat) (hn : 0 < text.length) {c : Ctx} {ci : List Assoc.CI}
+    (e : Pass.shape font text fuel dir = .ok (some (c, ci))) :
     ∀ j, 0 ≤ (c.seg.get j).before ∧ (c.seg.get j).before < text.length ∧ 0 ≤ (c.seg.get j).after ∧ (c.seg.get j).after < text.length ∧
       0 ≤ (c.seg.get j).original ∧ (c.seg.get j).original < text.length :=
-  (Pass.shape_assoc font text fuel hn e).1
+  (Pass.shape_assoc font text fuel dir hn e).1
 
 /-- **C05 (char-info values).** After `associateChars` on a stream of `L` slots every char-info's `before` and `after`
 is −1 or a slot index below `L` -/
